@@ -64,6 +64,8 @@ type Limits struct {
 }
 
 type Machine struct {
+	noSched int // >0 while a package initialiser runs: scheduling points are disabled
+	pools map[*Object][]Value // sync.Pool contents by pool object
 	E *Engine
 	S *sym.Store
 	Z *sym.Solver
@@ -454,7 +456,14 @@ func (m *Machine) ensureInit(p *ssa.Package) {
 	}
 	saveDepth := m.depth
 	m.inited[p] = false
-	m.callSSA(nil, initFn, nil, nil)
+	// Package initialisation is triggered lazily (first access to a global of the package), but it is atomic: in
+	// a real program it has finished before main starts, so no other task may run in the middle of it and see
+	// half-initialised globals. Scheduling points inside init are therefore disabled.
+	m.noSched++
+	func() {
+		defer func() { m.noSched-- }()
+		m.callSSA(nil, initFn, nil, nil)
+	}()
 	m.inited[p] = true
 	m.depth = saveDepth
 }
